@@ -1411,6 +1411,8 @@ def _d10_eval(node, acted, drops, depth=0, act=None):
             drops.append(node)
         return set()
     if k in ("Ret", "Break"):
+        if k == "Ret" and act is not None and hasattr(act, "rets") and False in acted and not any("QuestionMark" in z for z in (node.get("exp") or [])):
+            act.rets.append(node)
         return set()
     if k == "Loop":
         inner = []
@@ -2072,6 +2074,258 @@ def rule_D11(ctx):
             continue
         ss = d11_sites(f)
         bad = any(not ok for _w, ok, _c in ss)
+        if f["name"].startswith("ctl_"):
+            r.control(f["name"], bad)
+        else:
+            r.neg_control(f["name"], bool(ss) and not bad)
+    return r
+
+
+# ---------------------------------------------------------------------------------------------------------------------
+# A13  list construction is not re-entered.  start_list .. add_to_list .. end_list build ONE list at a time (SimpleGarnishData
+#      keeps a single buffer for the list under construction): between start_list and end_list nothing is called that may
+#      itself start a list on a data object - an item that needs building (a nested list being cloned) is built before.
+def _is_data_call(t, name):
+    d = (t.get("def") or "")
+    r_ = (t.get("resolved") or "")
+    return t["k"] == "Call" and (last(d) == name and "GarnishData" in d or last(r_) == name and "GarnishData" in r_)
+
+
+def a13_analyse(ctx):
+    from . import cg as cgm
+    F = ctx.F
+    g = cgm.get(ctx)
+    direct = set()
+    for p, f in F.fns.items():
+        if f["crate"] not in cgm.SHIPPED and f["crate"] != "gfixture":
+            continue
+        if (f.get("trait_item") or "").endswith("GarnishData::start_list"):
+            continue
+        if any(not b["cleanup"] and _is_data_call(b["term"], "start_list") for b in f["mir"]["blocks"]):
+            direct.add(p)
+    rev = {}
+    for a, bs in g.edges.items():
+        for b in bs:
+            rev.setdefault(b, set()).add(a)
+    may = set(direct)
+    work = list(direct)
+    while work:
+        x = work.pop()
+        for y in rev.get(x, ()):
+            if y not in may:
+                may.add(y)
+                work.append(y)
+    out = []
+    n = 0
+    for p in sorted(direct):
+        f = F.fns[p]
+        mir = f["mir"]
+        bl = mir["blocks"]
+        for bi, b in enumerate(bl):
+            if b["cleanup"] or not _is_data_call(b["term"], "start_list"):
+                continue
+            n += 1
+            seen, work = set(), [b["term"].get("target")]
+            while work:
+                x = work.pop()
+                if x is None or x in seen or bl[x]["cleanup"]:
+                    continue
+                seen.add(x)
+                t = bl[x]["term"]
+                if _is_data_call(t, "end_list"):
+                    continue
+                if t["k"] == "Call":
+                    d = t.get("resolved") or t.get("def") or ""
+                    tg = set([d]) | set(g._targets(t.get("def") or "", t.get("resolved"), None))
+                    hit = sorted(q for q in tg if q in may and not (q == p and False))
+                    if _is_data_call(t, "start_list"):
+                        hit = ["start_list"]
+                    if hit:
+                        out.append((p, "list-construction-re-entered:%s" % last(hit[0]), loc(t), last(hit[0]), loc(b["term"])))
+                        continue
+                work.extend(mirq.succs(t))
+    return out, n, len(may)
+
+
+def rule_A13(ctx):
+    F = ctx.F
+    r = RuleResult("A13", "list construction is not re-entered: between start_list and end_list nothing is called that may itself start a list (one list is under construction at a time)")
+    fnd, n, nmay = a13_analyse(ctx)
+    r.analysed["functions_that_may_start_a_list"] = nmay
+    seen = set()
+    for k in range(n):
+        r.examine(("construction", k), True, None)
+    for p, inst, where, callee_, started in fnd:
+        if p.startswith("gfixture::"):
+            continue
+        if (p, inst) in seen:
+            continue
+        seen.add((p, inst))
+        r.finding(p, inst, where, "`%s` is called at %s while the list opened at %s is still under construction, and it may start a list itself: SimpleGarnishData keeps one buffer for the list being built, so the inner list's items replace the outer list's - (10, (1, 2), 20) is copied as (1, 2, (1, 2), 20)" % (callee_, where, started))
+    r.floor("list constructions (start_list call sites)", n, 10)
+    bad = set(p for p, _i, _w, _c, _s in fnd)
+    for f in F.fns_in("gfixture::round3::a13::"):
+        if f["kind"] == "Closure" or not f.get("name", "").startswith(("ctl_", "ok_")):
+            continue
+        if f["name"].startswith("ctl_"):
+            r.control(f["name"], f["path"] in bad)
+        else:
+            r.neg_control(f["name"], f["path"] not in bad)
+    return r
+
+
+# ---------------------------------------------------------------------------------------------------------------------
+# W9  constants are interned: the value-adding methods of SimpleGarnishData that spec/simple_interned.json lists return the
+#     address the interning function returned - on every path, also through the helpers they delegate to.  A path that
+#     appends the value itself (address = data.len() - 1) hands out a fresh address for an equal constant.
+_W9_NOISE = {"must_use", "to_string", "into", "clone", "from"}
+
+
+def interned_return(F, f, depth=0, seen=None):
+    """set of origin kinds of the returned address with SimpleGarnishData helpers expanded: 'intern' or a description"""
+    seen = seen if seen is not None else set()
+    if f["path"] in seen or depth > 4:
+        return set()
+    seen.add(f["path"])
+    res = set()
+    for k, what, where in returned_address_origins(F, f):
+        if k == "call":
+            if what == "cache_add":
+                res.add("intern")
+            elif what in _W9_NOISE:
+                continue
+            else:
+                g = [x for x in F.fns.values() if x["crate"] == f["crate"] and x.get("name") == what and x["kind"] != "Closure" and (
+                    (x.get("impl_self") or "").split("<")[0] == (f.get("impl_self") or "").split("<")[0])]
+                if g:
+                    res |= interned_return(F, g[0], depth + 1, seen)
+                else:
+                    res.add("call:%s" % what)
+        elif k == "param":
+            res.add("param")
+        else:
+            res.add("%s:%s" % (k, what))
+    return res
+
+
+def rule_W9(ctx):
+    import json, os
+    from .facts import VERIF
+    F = ctx.F
+    r = RuleResult("W9", "constants are interned: the SimpleGarnishData methods that add a constant (spec/simple_interned.json) return the address the interning function returned, on every path and through every helper they delegate to")
+    with open(os.path.join(VERIF, "spec", "simple_interned.json")) as fh:
+        want = set(json.load(fh)["interned"])
+    found = 0
+    for f in sorted(F.fns.values(), key=lambda f: f["path"]):
+        ti = f.get("trait_item") or ""
+        nm = last(ti)
+        if f["crate"] != "garnish_lang_simple_data" or "GarnishData::" not in ti or "SimpleGarnishData" not in (f.get("impl_self") or "") or nm not in want:
+            continue
+        found += 1
+        res = interned_return(F, f)
+        other = sorted(x for x in res if x != "intern")
+        r.examine((f["path"],), True, {"method": nm, "returned_address_from": sorted(res)})
+        if "intern" not in res or other:
+            r.finding(f["path"], "not-interned:%s" % nm, loc(f["hir"]), "`%s` returns an address that does not (only) come from the interning function (%s): an equal constant added again gets a different address - and a constant region holding the same value twice shifts what a later clone of the constants copies" % (nm, ", ".join(other) or "no interning call found"))
+    r.floor("interning methods of SimpleGarnishData found", found, len(want))
+    for f in F.fns_in("gfixture::round3::w9::"):
+        if f["kind"] == "Closure" or not f.get("name", "").startswith(("ctl_", "ok_")):
+            continue
+        res = interned_return(F, f)
+        bad = "intern" not in res or bool([x for x in res if x != "intern"])
+        if f["name"].startswith("ctl_"):
+            r.control(f["name"], bad)
+        else:
+            r.neg_control(f["name"], not bad)
+    return r
+
+
+# ---------------------------------------------------------------------------------------------------------------------
+# D12  token text reaches the data object unrewritten.  What the builder hands to parse_add_number / _char_list / _byte_list /
+#      _symbol is the token's own text, at most cut at its ends (a delimiter trimmed, a leading marker sliced off) - never
+#      filtered, replaced, re-cased or rebuilt character by character: "a symbol keeps the name it was written with".
+_TEXT_OK = {"text", "trim_matches", "trim_start_matches", "trim_end_matches", "strip_prefix", "strip_suffix", "as_str", "as_ref", "borrow", "deref",
+            "get_lex_token", "get_text", "to_string", "clone", "to_owned", "unwrap_or", "unwrap_or_default", "trim_start", "trim_end", "index"}
+
+
+def d12_sites(f):
+    body = Body(f)
+    out = []
+    def chain(e, depth=0, seen=None):
+        """None when the expression is the token text cut at its ends; else a description of the rewriting step"""
+        seen = seen if seen is not None else set()
+        if e is None or depth > 25:
+            return None
+        e = peel(e)
+        k = e.get("k")
+        if k in ("AddrOf", "Unary", "Field", "Cast"):
+            return chain(e.get("e"), depth + 1, seen)
+        if k == "Index":
+            return chain(e.get("e"), depth + 1, seen)
+        if k == "Lit":
+            return None
+        if k == "Path":
+            if e.get("res") == "local":
+                if e["lid"] in seen:
+                    return None
+                seen.add(e["lid"])
+                for d_ in body.defs.get(e["lid"], []):
+                    if d_.get("k") in ("Param", "ClosureParam"):
+                        continue
+                    if d_.get("k") == "Destructure":
+                        w = chain(d_["of"], depth + 1, seen)
+                    else:
+                        w = chain(d_, depth + 1, seen)
+                    if w:
+                        return w
+            return None
+        if k == "MethodCall":
+            if e.get("m") in _TEXT_OK:
+                return chain(e["recv"], depth + 1, seen)
+            return "%s() at %s" % (e.get("m"), loc(e))
+        if k == "Call":
+            d = callee(e) or ""
+            if last(d) in ("from", "into", "Some", "Ok", "deref", "index", "borrow", "as_ref") and e.get("args"):
+                return chain(e["args"][0], depth + 1, seen)
+            return "%s(..) at %s" % (last(d) or "call", loc(e))
+        if k == "Match":
+            for arm in e.get("arms", []):
+                w = chain(arm["body"], depth + 1, seen)
+                if w:
+                    return w
+            return None
+        if k == "If":
+            return chain(e.get("then"), depth + 1, seen) or chain(e.get("else"), depth + 1, seen)
+        if k == "Block":
+            b = e.get("b") or {}
+            return chain(b.get("expr"), depth + 1, seen) if isinstance(b, dict) else None
+        return "%s at %s" % (k, loc(e) if e.get("sp") else "?")
+    for n in walk(f["hir"]):
+        if n.get("k") == "MethodCall" and str(n.get("m", "")).startswith("parse_add_") and n.get("args"):
+            out.append((loc(n), n["m"], chain(n["args"][0])))
+    return out
+
+
+def rule_D12(ctx):
+    F = ctx.F
+    r = RuleResult("D12", "token text reaches the data object unrewritten: the builder hands parse_add_* the token's own text, at most cut at its ends - never filtered, replaced or rebuilt")
+    n = 0
+    for f in sorted(F.fns.values(), key=lambda f: f["path"]):
+        if f["crate"] != "garnish_lang_compiler" or "::build::" not in f["path"]:
+            continue
+        k = 0
+        for where, m, why in d12_sites(f):
+            n += 1
+            r.examine((f["path"], where), True, {"fn": last(f["path"]), "call": m, "where": where, "text_unrewritten": why is None})
+            if why:
+                k += 1
+                r.finding(f["path"], "token-text-rewritten:%s#%d" % (m, k), where, "the text handed to `%s` at %s is not the token's own text cut at its ends: it goes through %s - characters the lexer accepts inside the token (the `:` of a namespaced name) are lost or changed, so the value denotes something else than was written" % (m, where, why))
+    r.floor("parse_add_* calls in the builder", n, 6)
+    for f in F.fns_in("gfixture::round3::d12::"):
+        if f["kind"] == "Closure" or not f.get("name", "").startswith(("ctl_", "ok_")):
+            continue
+        ss = d12_sites(f)
+        bad = any(w for _l, _m, w in ss)
         if f["name"].startswith("ctl_"):
             r.control(f["name"], bad)
         else:
